@@ -329,6 +329,25 @@ impl<N, E, S: BuildHasher, Ty: EdgeType, Null: Nullable<Wrapped = E>, Ix: IndexT
         self.nb_edges = 0;
     }
 
+    /// Verification hook: read-only dump of the private storage
+    /// (`node_capacity`, `nb_edges`, linear positions of the occupied cells,
+    /// `removed_ids`, `upper_bound`).
+    #[cfg(feature = "verif-hooks")]
+    pub fn verif_storage(&self) -> (usize, usize, Vec<usize>, Vec<usize>, usize) {
+        (
+            self.node_capacity,
+            self.nb_edges,
+            self.node_adjacencies
+                .iter()
+                .enumerate()
+                .filter(|(_, c)| !c.is_null())
+                .map(|(i, _)| i)
+                .collect(),
+            self.nodes.removed_ids.iter().copied().collect(),
+            self.nodes.upper_bound,
+        )
+    }
+
     /// Return the number of nodes (vertices) in the graph.
     ///
     /// Computes in **O(1)** time.
@@ -1062,6 +1081,8 @@ fn extend_flat_square_matrix<T: Default>(
         let new_pos = c * new_node_capacity;
         // Move the slices directly if they do not overlap with their new position
         if pos + old_node_capacity <= new_pos {
+            #[cfg(feature = "verif-hooks")]
+            crate::verif::hit(crate::verif::Site::matrix_grow_nonoverlapping);
             debug_assert!(pos + old_node_capacity < node_adjacencies.len());
             debug_assert!(new_pos + old_node_capacity < node_adjacencies.len());
             let ptr = node_adjacencies.as_mut_ptr();
@@ -1072,6 +1093,8 @@ fn extend_flat_square_matrix<T: Default>(
                 core::ptr::swap_nonoverlapping(old, new, old_node_capacity);
             }
         } else {
+            #[cfg(feature = "verif-hooks")]
+            crate::verif::hit(crate::verif::Site::matrix_grow_overlapping);
             for i in (0..old_node_capacity).rev() {
                 node_adjacencies.as_mut_slice().swap(pos + i, new_pos + i);
             }
@@ -1125,8 +1148,12 @@ impl<T, S: BuildHasher> IdStorage<T, S> {
 
     fn add(&mut self, element: T) -> usize {
         let id = if let Some(id) = self.removed_ids.pop() {
+            #[cfg(feature = "verif-hooks")]
+            crate::verif::hit(crate::verif::Site::matrix_id_reused);
             id
         } else {
+            #[cfg(feature = "verif-hooks")]
+            crate::verif::hit(crate::verif::Site::matrix_id_fresh);
             let id = self.upper_bound;
             self.upper_bound += 1;
 
